@@ -229,18 +229,23 @@ func genSchedNow(r *kit.Rand) string {
 
 // fires2001: the firing times of the cron schedule `0 0 0 1 * * 2001` (first of every month of 2001, UTC),
 // computed with the standard library, not with cronexpr.
-func fires2001() []int64 {
+func fires2001(tz int64) []int64 {
 	var out []int64
 	for m := time.January; m <= time.December; m++ {
-		out = append(out, time.Date(2001, m, 1, 0, 0, 0, 0, time.UTC).UnixNano())
+		out = append(out, time.Date(2001, m, 1, 0, 0, 0, 0, time.FixedZone("z", int(tz))).UnixNano())
 	}
 	return out
 }
 
+// zones: seconds east of UTC the host's clock is set to for one op (whole hours east and west, half and
+// three-quarter hours, a zone whose calendar day differs from UTC's for half the day, and UTC itself).
+var zones = []int64{18000, -12600, 0, 20700, -28800, 46800, -3600, 34200}
+
 // genSchedCronEnding: a cron schedule with a year field ends; cronexpr.Next then answers the zero time and
 // Queries must stop (`current.IsZero()`), wherever the span lies relative to the schedule's end.
 func genSchedCronEnding(r *kit.Rand) string {
-	fires := fires2001()
+	tz := kit.Pick(r, zones) // midnight of the first of the month ON THE HOST'S CLOCK
+	fires := fires2001(tz)
 	day := int64(86400) * sec
 	var start int64
 	switch r.Intn(5) {
@@ -277,15 +282,98 @@ func genSchedCronEnding(r *kit.Rand) string {
 	}
 	per := kit.Pick(r, []int64{day, 3600 * sec, 0})
 	off := kit.Pick(r, []int64{0, 0, 3600 * sec, -60 * sec})
-	return fmt.Sprintf("sched toks=%s per=%d off=%d ev=0 al=0 cron=-1 gb=0 gbo=0 ag=0 fill=%s tags=%s pt=%s decl=db.rp from=db.rp start=%d stop=%d lt=1 fires=%s ticks=%s",
-		schedToks[r.Intn(len(schedToks))], per, off, kit.Pick(r, fills), kit.Pick(r, []string{"0", "1", "2"}), kit.Pick(r, pts), start, stop, i64s(fires), i64s(ticks))
+	return fmt.Sprintf("sched toks=%s per=%d off=%d ev=0 al=0 cron=-1 gb=0 gbo=0 ag=0 fill=%s tags=%s pt=%s decl=db.rp from=db.rp start=%d stop=%d lt=1 tz=%d fires=%s ticks=%s",
+		schedToks[r.Intn(len(schedToks))], per, off, kit.Pick(r, fills), kit.Pick(r, []string{"0", "1", "2"}), kit.Pick(r, pts), start, stop, tz, i64s(fires), i64s(ticks))
+}
+
+// genSchedCronZone: a cron() that names hours, minutes and seconds (`cz=`), on a host whose clock is `tz` seconds
+// east of UTC. cron() speaks of the host's clock: the firing times are the instants at which that clock shows one of
+// the named times of day. Starts exactly on / 1 ns before / 1 ns after a firing, at the host's and at UTC's midnight,
+// anywhere; spans of 0..4 firings ending on / 1 ns before / after a firing.
+func genSchedCronZone(r *kit.Rand) string {
+	tz := kit.Pick(r, zones)
+	day := int64(86400) * sec
+	hours := kit.Pick(r, [][]int64{{9}, {0}, {23}, {3, 15}, {0, 6, 12, 18}, {5, 6}})
+	mins := kit.Pick(r, [][]int64{{0}, {0}, {30}, {15, 45}, {59}})
+	secs := kit.Pick(r, [][]int64{{0}, {0}, {0, 30}, {7}})
+	var tod []int64 // ascending: hours, minutes, seconds are
+	for _, h := range hours {
+		for _, m := range mins {
+			for _, s := range secs {
+				tod = append(tod, (h*3600+m*60+s)*sec)
+			}
+		}
+	}
+	// first firing after t: the host's clock reads t+tz
+	next := func(t int64) int64 {
+		l := t + tz*sec
+		d, rem := floorDiv(l, day), l-floorDiv(l, day)*day
+		for _, x := range tod {
+			if rem < x {
+				return d*day + x - tz*sec
+			}
+		}
+		return (d+1)*day + tod[0] - tz*sec
+	}
+	anchor := kit.Pick(r, []int64{1500000000, 1000000000, 1600000000, 86400 * 365})
+	t := anchor*sec + int64(r.U64()%uint64(3*day))
+	var start int64
+	switch r.Intn(7) {
+	case 0:
+		start = next(t) // on a firing: that one is not in the span
+	case 1:
+		start = next(t) - 1
+	case 2:
+		start = next(t) + 1
+	case 3:
+		start = floorDiv(t, day) * day // UTC midnight
+	case 4:
+		start = floorDiv(t+tz*sec, day)*day - tz*sec // the host's midnight
+	default:
+		start = t
+	}
+	nt := r.Intn(5)
+	cur := start
+	for k := 0; k < nt; k++ {
+		cur = next(cur)
+	}
+	var stop int64
+	switch r.Intn(4) {
+	case 0:
+		stop = cur // on the last firing (or the start)
+	case 1:
+		stop = next(cur) - 1
+	case 2:
+		stop = cur + 1
+	default:
+		stop = cur + int64(r.U64()%uint64(next(cur)-cur))
+	}
+	// the live ticks of a task started at `start`, up to `stop`
+	var ticks []int64
+	for c := next(start); c <= stop && len(ticks) < 12; c = next(c) {
+		ticks = append(ticks, c)
+	}
+	per := kit.Pick(r, []int64{3600 * sec, day, 60 * sec, 0})
+	off := kit.Pick(r, []int64{0, 0, 0, 60 * sec, -2 * sec, per + sec})
+	j := func(xs []int64) string {
+		var p []string
+		for _, x := range xs {
+			p = append(p, strconv.FormatInt(x, 10))
+		}
+		return strings.Join(p, "+")
+	}
+	return fmt.Sprintf("sched toks=%s per=%d off=%d ev=0 al=0 cron=-2 gb=0 gbo=0 ag=0 fill=%s tags=0 pt=%s decl=db.rp from=db.rp start=%d stop=%d lt=1 tz=%d cz=%s;%s;%s ticks=%s",
+		schedToks[r.Intn(len(schedToks))], per, off, kit.Pick(r, fills), kit.Pick(r, pts), start, stop, tz, j(hours), j(mins), j(secs), i64s(ticks))
 }
 
 var fills = []string{"-", "-", "0", "null", "none", "previous", "linear"}
 var pts = []string{"-", "5000000000", "1500000000000000001"}
 
 func genSched(r *kit.Rand, i int) string {
-	mode := i % 12
+	mode := i % 13
+	if mode == 12 {
+		return genSchedCronZone(r)
+	}
 	if mode == 10 {
 		return genSchedNow(r)
 	}
@@ -464,5 +552,17 @@ func generate(out *kit.Out, f kit.Flags) {
 	}
 	for k := 0; k < nreal; k++ {
 		emit(out, fmt.Sprintf("real%d", k), []string{fmt.Sprintf("livereal %d 3", kit.Pick(r, []int{100, 120, 150}))})
+	}
+	// the real cron ticker on hosts in other zones than UTC: one second of wall clock per case
+	liveZones := []int64{18000, -12600, 46800, 0}
+	if f.Tier == "thorough" {
+		liveZones = zones
+	}
+	for k, tz := range liveZones {
+		shapes := "es,lh,uh,lhm,uhm,ld,ud,lw,uw"
+		if k%2 == 1 {
+			shapes = "s2,uh,lh,uhm,lhm,ud,ld,uw,lw"
+		}
+		emit(out, fmt.Sprintf("cronlive%d", k), []string{fmt.Sprintf("cronlive tz=%d shapes=%s per=%d from=500000000 to=1500000000", tz, shapes, kit.Pick(r, []int64{sec, 3 * sec}))})
 	}
 }
